@@ -20,7 +20,7 @@ RULE = ('cases = (local maximum, peer-announced maximum) x seeded list of messag
         'seeded schedule and segmentation; thorough adds the full small grid max 7..40 x length '
         '0..3*(max-6)+2 through the simulated stack; oracle = wire monitor (R-codec/R-dimse) '
         'against the send-time snapshot; non-trivial = message with >= 2 fragments or a data '
-        'set; distinct = distinct (class, max, data kind, size, pcid)')
+        'set; distinct = distinct (class, max, data kind, size, pcid); duplex family: the peer sends messages of its own for every k-th PDU it reads')
 ASSUMPTIONS = ['send snapshot = command set and data bytes at the instant Association.send is '
                'called (deep copy made by the harness)', 'sampling of the size/length grid',
                'the caller does not close a file it handed to send()']
@@ -36,6 +36,11 @@ def cases(tier, seed):
         m = rnd.choice([24, 40, 64, 128, 1024])
         yield dict(local=m, peer=65536, seed=seed * 100043 + i, senders=2,
                    fine=['send', 'encode', '_fragments', 'set_length'])
+    # full-duplex traffic: the peer sends messages of its own while the entity is in the middle
+    # of sending: what goes out is still exactly the fragments of the messages that were sent
+    for i in range(200 if tier == 'quick' else 8000):
+        m = rnd.choice([16, 32, 64, 128, 1024])
+        yield dict(local=m, peer=65536, seed=seed * 100049 + i, chatty=rnd.choice([1, 1, 2, 3]))
     # (the bulk comes after the small families so that a budget cut never drops those)
     n = 3000 if tier == 'quick' else 80000
     for i in range(n):
@@ -156,7 +161,7 @@ def run_case(case, want='c06'):
                       resend=0, pause=0)]
     out = dimse_send.run(case['seed'], case['local'], case['peer'], specs=specs,
                          nassoc=case.get('nassoc', 1), senders=case.get('senders', 1),
-                         fine=case.get('fine'))
+                         fine=case.get('fine'), chatty=case.get('chatty', 0))
     world = out['world']
     try:
         viol = []
